@@ -244,3 +244,92 @@ injected: [js, ts, tsx]";
     assert!(!ret.contains_key("js"));
   }
 }
+
+#[cfg(feature = "verif-hooks")]
+pub mod verif_hooks {
+  //! Drive the real registration / extraction of `languageInjections` with caller-chosen
+  //! configuration text and documents.
+  use super::*;
+  use ast_grep_core::AstGrep;
+
+  pub type Grep = AstGrep<StrDoc<SgLang>>;
+
+  /// one match of an injection rule: (`node_id` and byte range of `$CONTENT`, text of `$LANG`)
+  pub type RuleMatch = (Option<(usize, usize, usize)>, Option<String>);
+
+  /// `register_injetables` on the entries of a `languageInjections:` list (YAML text)
+  pub fn register(yaml: &str) -> Result<()> {
+    let injections: Vec<SerializableInjection> = ast_grep_config::from_str(yaml)?;
+    unsafe { register_injetables(injections) }
+  }
+
+  /// `SgLang::from_str(lang)` and a parse of `src`
+  pub fn parse(src: &str, lang: &str) -> Option<Grep> {
+    let lang = SgLang::from_str(lang).ok()?;
+    Some(lang.ast_grep(src))
+  }
+
+  /// `SgLang::from_str(name)` as `get_injections` is called by the CLI, printed
+  pub fn known(name: &str) -> Option<String> {
+    SgLang::from_str(name).ok().map(|l| l.to_string())
+  }
+
+  /// for every rule registered for the document's language, in registration order: its default
+  /// language and what `extract_custom_inject` reads from each match of `root.find_all(rule)`
+  pub fn rule_matches(grep: &Grep) -> Vec<(Option<String>, Vec<RuleMatch>)> {
+    let injections = unsafe { &*addr_of!(LANG_INJECTIONS) };
+    let root = grep.root();
+    let Some(rules) = injections.iter().find(|n| n.host == *root.lang()) else {
+      return vec![];
+    };
+    let mut ret = vec![];
+    for (rule, default_lang) in &rules.rules {
+      let mut ms = vec![];
+      for m in root.find_all(rule) {
+        let env = m.get_env();
+        let content = env
+          .get_match("CONTENT")
+          .map(|n| (n.node_id(), n.range().start, n.range().end));
+        let lang = env.get_match("LANG").map(|n| n.text().to_string());
+        ms.push((content, lang));
+      }
+      ret.push((default_lang.clone(), ms));
+    }
+    ret
+  }
+
+  /// the real `extract_injections(root)`, entries in the iteration order of the map
+  pub fn extract(grep: &Grep) -> Vec<(String, Vec<(usize, usize)>)> {
+    extract_injections(grep.root())
+      .into_iter()
+      .map(|(k, v)| {
+        let v = v
+          .iter()
+          .map(|r| (r.start_byte() as usize, r.end_byte() as usize))
+          .collect();
+        (k, v)
+      })
+      .collect()
+  }
+
+  /// the real `injectable_languages(lang of the document)`, in its own order
+  pub fn injectable(grep: &Grep) -> Option<Vec<String>> {
+    injectable_languages(*grep.lang()).map(|v| v.iter().map(|s| s.to_string()).collect())
+  }
+
+  /// `get_injections` as every CLI consumer calls it: the names in the order `get_lang` was asked
+  /// about them (the iteration order of the region map) and the documents in result order
+  pub fn documents(grep: &Grep) -> (Vec<String>, Vec<Grep>) {
+    let asked = std::cell::RefCell::new(vec![]);
+    let docs = grep
+      .inner
+      .get_injections(|s| {
+        asked.borrow_mut().push(s.to_string());
+        SgLang::from_str(s).ok()
+      })
+      .into_iter()
+      .map(|inner| AstGrep { inner })
+      .collect();
+    (asked.into_inner(), docs)
+  }
+}
